@@ -64,6 +64,8 @@ var S1 = Schema{
 		st("upsert", "ups-insert", "INSERT INTO t_s1 (id, name, cnt) VALUES (5, 'e', 50) ON DUPLICATE KEY UPDATE cnt = cnt + 1"),
 		st("upsert", "ups-update", "INSERT INTO t_s1 (id, name, cnt) VALUES (1, 'z', 99) ON DUPLICATE KEY UPDATE cnt = cnt + 1"),
 		st("upsert", "ups-update-values", "INSERT INTO t_s1 (id, name, cnt) VALUES (?, ?, ?) ON DUPLICATE KEY UPDATE cnt = VALUES(cnt), name = VALUES(name)", int64(2), "zz", 77),
+		// updates an existing row and inserts a new one whose key sorts before it
+		st("upsert", "ups-2rows-newlow", "INSERT INTO t_s1 (id, name, cnt) VALUES (3, 'z', 99), (?, 'e', 50) ON DUPLICATE KEY UPDATE cnt = cnt + 1", int64(-5)),
 	},
 	More: []Stmt{
 		st("insert", "ins-3rows-mixed", "INSERT INTO t_s1 (id, name, cnt) VALUES (5, ?, 50), (?, 'f', ?), (7, 'g', 70)", "e", int64(6), 60),
